@@ -33,7 +33,7 @@ RES = (1, 2, 3, 7, 96, 100, 192, 480, 960)
 BPMS = (1, 999, 1000, 1001, 1118, 59999, 120000, 120001, 333333, 20548, 99999999, 10**9)
 GAPS = (1, 2, 3, 191, 192, 193, 1000)
 SUB_BPMS = (1, 1000, 120000, 10**9)
-LONG = (9, 10, 11, 16, 17, 18, 33, 65)  # tempo-map lengths around plausible fast-path thresholds
+LONG = (9, 10, 11, 16, 17, 18, 33, 34, 65)  # tempo-map lengths around plausible fast-path thresholds
 BPMS3_QUICK = (1, 1000, 1118, 120000, 333333, 10**9)
 LIMIT = 10**12  # microseconds: 10^6 s
 TOL = Fraction(1, 2) + Fraction(2, 1000)
@@ -129,8 +129,11 @@ def probe_ticks(tempo, res):
     return [t for t in sorted(cand) if t >= 0 and exact_us(tempo, res, t)[0] < LIMIT]
 
 
-def build(tempo, res):
+def build(tempo, res, sparse=False):
     pts = probe_ticks(tempo, res)
+    if sparse:  # events only near the beginning and near the end: long hops between consecutive events of a kind
+        keep = [t for t in pts if t <= tempo[2][0] + 1 or t >= tempo[-2][0]]
+        pts = keep if len(keep) >= 2 else pts
     sync = ["%d = B %d" % tn for tn in tempo] + ["%d = TS 4" % t for t in pts]
     if 0 not in pts:
         sync.append("0 = TS 4")
@@ -155,9 +158,9 @@ def build(tempo, res):
     return mk(res=res, sync=sync, events=ev, tracks=[("ExpertSingle", body), ("EasyGHLBass", body2)]), pts
 
 
-def check_map(ctx, tempo, res):
-    text, pts = build(tempo, res)
-    ctx.case((res, tuple(tempo)), nontrivial=len(tempo) >= 2, sample=lambda: dict(resolution=res, tempo=[list(x) for x in tempo], probe_ticks=pts))
+def check_map(ctx, tempo, res, sparse=False):
+    text, pts = build(tempo, res, sparse)
+    ctx.case((res, tuple(tempo), sparse), nontrivial=len(tempo) >= 2, sample=lambda: dict(resolution=res, tempo=[list(x) for x in tempo], probe_ticks=pts))
     try:
         c = impl.parse(text)
     except Exception as e:  # noqa: BLE001
@@ -234,6 +237,7 @@ def run_shard(shard, ctx):
                     t += gaps[i % len(gaps)]
                 tempo = [(tk, cyc_b[(i + rot) % len(cyc_b)]) for i, tk in enumerate(ticks)]
                 check_map(ctx, tempo, r)
+                check_map(ctx, tempo, r, sparse=True)
     else:
         _, r, n0, n1, kmax = shard
         ctx.node(2)
